@@ -241,7 +241,7 @@ add('C02', 'proof', 'Lean 4 theorems: recovery reproduces the syndrome for EVERY
     'error (snake fills, destabilisers incl. the co-prime billiard lemma, residual look-up table sound and total, '
     'Y-stabilizers = the 2^(gcd-1) Y-only centraliser elements, decode never raises); for the SMWPM decoders also EXISTENCE of '
     'perfect matchings at finite bias, at infinite bias for Y-only noise and at p = 0 (so decoding never fails given a maximum-cardinality matching), with the line-parity / feasibility conditions proved NECESSARY as well (iff), and the toric _cluster_graph assert (even number of defective clusters) proved never to fire on reachable syndrome arrays (Props/C02/SmwpmEven.lean); the naive decoder (sound, complete, guard); the monitor recoveryOk decides the property for all '
-    'errors with that syndrome at once. C15/C07 interface hypotheses are discharged (Props/C02/Instances.lean) — 138 theorems. CMWPM edge weights (Model/StepGrid.lean: set_background with all four box shapes, distance algorithms 1 / 2 / 4; Props/C02/StepGrid.lean, 15 theorems incl. the first-iteration weights (empty background, algorithm 1: initial times half the taxi-cab distance = the plain MWPM weight) and the closed form of the default tight-box background: a site weighs initial * factor^(number of matched pairs whose bounding box misses it)): the background does not depend on the iteration order of the frozenset of matched pairs, both-virtual pairs are skipped, only sites carry weight, virtual-virtual distance is 0, algorithm 2 is orientation-independent while algorithm 1 is not (kernel-evaluated witness). '
+    'errors with that syndrome at once. C15/C07 interface hypotheses are discharged (Props/C02/Instances.lean) — 138 theorems. CMWPM edge weights (Model/StepGrid.lean: set_background with all four box shapes, distance algorithms 1 / 2 / 4; Props/C02/StepGrid.lean, 17 theorems incl. non-negativity of every site and edge weight, the first-iteration weights (empty background, algorithm 1: initial times half the taxi-cab distance = the plain MWPM weight) and the closed form of the default tight-box background: a site weighs initial * factor^(number of matched pairs whose bounding box misses it)): the background does not depend on the iteration order of the frozenset of matched pairs, both-virtual pairs are skipped, only sites carry weight, virtual-virtual distance is 0, algorithm 2 is orientation-independent while algorithm 1 is not (kernel-evaluated witness). '
     'Tie: exact comparison of sample_recovery, recorded gt.mwpm graphs / matchings / clusters / stage recoveries / final '
     'recovery given the recorded matchings, the Y decoder\'s cached operators and residual table; and every registry decoder run '
     'on real syndromes (all syndromes of the smallest codes, every weight on larger ones, all parameterisations and context '
